@@ -48,6 +48,8 @@ fn spec_image(fnum: u16, console_flags: u32) -> [u8; 12] {
 
 #[kani::proof]
 pub fn k_console_decode() {
+    // the flags word is a 32-bit field: a wider enum representation would read past the 12-byte tag
+    assert!(core::mem::size_of::<ConsoleHeaderTagFlags>() == 4);
     let bytes = AlignedBytes(kani::any::<[u8; 16]>());
     let b = &bytes.0;
     kani::assume(le16(b, 0) == 4);
